@@ -52,5 +52,13 @@ Fixpoint join_comma (vs : list bytes) : bytes :=
 (* headerValue: the comma-joined list, as serialized and signed *)
 Definition hdr_value (h : headers) (k : bytes) : bytes := join_comma (hdr_values h k).
 
+(* verifier.go headerValue: the field is found whatever the letter case of its map
+   key (all keys whose lower-case form equals the lower-cased name, in key order),
+   values comma-joined. *)
+Definition hdr_values_ci (h : headers) (k : bytes) : list bytes :=
+  List.concat (map snd (isort (fun a b : bytes * list bytes => bytes_ltb (fst a) (fst b))
+                              (filter (fun kv => bytes_eqb (lower (fst kv)) (lower k)) h))).
+Definition hdr_value_ci (h : headers) (k : bytes) : bytes := join_comma (hdr_values_ci h k).
+
 Definition hdr_of_pairs (l : list (bytes * bytes)) : headers :=
   fold_left (fun h kv => hdr_add h (fst kv) (snd kv)) l [].
